@@ -1,3 +1,5 @@
 pub mod interpreter;
 pub mod built_ins;
 mod mark_sweep;
+#[cfg(pakhi_verif)]
+pub mod verif_hooks;
